@@ -203,6 +203,8 @@ impl Meta {
     }
 
     fn pack_shared(ptr: *const Shared) -> Self {
+        #[cfg(sonic_rs_verif)]
+        crate::verif::sched_point(crate::verif::SITE_ARENA_INC);
         unsafe { Arc::increment_strong_count(ptr) };
         let addr = ptr as usize as u64;
         let val = addr | Self::ROOT_NODE;
@@ -423,6 +425,8 @@ impl Drop for Value {
                 Meta::OBJ_MUT => ManuallyDrop::drop(&mut self.data.obj_own),
                 Meta::ROOT_NODE => {
                     let dom = self.meta.unpack_root();
+                    #[cfg(sonic_rs_verif)]
+                    crate::verif::sched_point(crate::verif::SITE_ARENA_DEC);
                     drop(Arc::from_raw(dom));
                 }
                 _ => unreachable!("should not be dropped"),
@@ -453,6 +457,8 @@ impl Value {
     }
 
     pub(crate) fn as_mut(&mut self) -> ValueMut<'_> {
+        #[cfg(sonic_rs_verif)]
+        crate::verif::sched_point(crate::verif::SITE_MAKE_MUT);
         let typ = self.meta.get_type();
         match typ {
             Meta::NULL => ValueMut::Null,
@@ -583,6 +589,8 @@ impl Clone for Value {
     /// assert_eq!(a, a.clone());
     /// ```
     fn clone(&self) -> Self {
+        #[cfg(sonic_rs_verif)]
+        crate::verif::sched_point(crate::verif::SITE_VALUE_CLONE);
         match self.unpack_ref() {
             ValueDetail::Root(indom) | ValueDetail::NodeInDom(indom) => Value::from(indom),
             ValueDetail::Null => Value::new_null(),
@@ -1307,6 +1315,8 @@ impl Value {
     pub(crate) fn parse_with_padding(&mut self, json: &[u8], cfg: DeserializeCfg) -> Result<usize> {
         // allocate the padding buffer for the input json
         let mut shared = Arc::new(Shared::default());
+        #[cfg(sonic_rs_verif)]
+        crate::verif::event(crate::verif::EV_ARENA_NEW, Arc::as_ptr(&shared) as usize);
         let mut buffer = Vec::with_capacity(json.len() + Self::PADDING_SIZE);
         buffer.extend_from_slice(json);
         buffer.extend_from_slice(&b"x\"x"[..]);
